@@ -103,7 +103,7 @@ def bounds(tier):
             "equiv_leaf_values": ["absent", "v1", "v2"], "equiv_variants": VARIANTS}
 
 
-VARIANTS = ["root", "nested", "both", "two-in-scope", "chain"]
+VARIANTS = ["root", "nested", "both", "two-in-scope", "chain", "two-in-scope-override", "two-in-scope-introduce", "two-in-scope-null"]
 
 
 def jobs(tier):
@@ -224,10 +224,13 @@ def _schema(variant, startdir):
     s.y = cc.StringField()
     s.sub.z = cc.IntField()
     s.sub.w = cc.StringField()
+    s.ul = cc.ListField()          # untyped containers: their values are stored as parsed
+    s.ud = cc.DictField()
+    s.sub.ul = cc.ListField()
     kw = {"startdir": startdir} if startdir else {}
-    if variant in ("root", "both", "two-in-scope", "chain"):
+    if variant in ("root", "both", "chain") or variant.startswith("two-in-scope"):
         s.include = cc.IncludeField(**kw)
-    if variant == "two-in-scope":
+    if variant.startswith("two-in-scope"):
         s.include2 = cc.IncludeField(**kw)
     if variant in ("nested", "both", "chain"):
         s.sub.inc = cc.IncludeField(**kw)
@@ -283,6 +286,7 @@ def _equiv(job, ctx):
     else:
         main_combos = combos
     n = 0
+    shared = {}
     for mi, m in enumerate(main_combos):
         for ci, c in enumerate(combos):
             if only is not None and only != [mi, ci]:
@@ -311,6 +315,25 @@ def _equiv(job, ctx):
                 files["r.inc"] = _mk(c[0], c[1], None, None)
                 files["r2.inc"] = _mk(c[1] and 2, None, c[2], c[3])
                 want = ref_merge(ref_merge(main, files["r.inc"]), files["r2.inc"])
+            elif variant in ("two-in-scope-override", "two-in-scope-introduce", "two-in-scope-null"):
+                # the first included file itself carries a value for the second include key of the same scope
+                main["include"] = "r.inc"
+                first = _mk(c[0], c[1], None, None)
+                if variant == "two-in-scope-override":
+                    main["include2"] = "r2.inc"
+                    first["include2"] = "other.inc"
+                elif variant == "two-in-scope-introduce":
+                    first["include2"] = "other.inc"
+                else:
+                    main["include2"] = "r2.inc"
+                    first["include2"] = None
+                files["r.inc"] = first
+                files["r2.inc"] = _mk(7 if c[0] else None, "from-r2", c[2], None)
+                files["other.inc"] = _mk(None, "from-other", None, c[3])
+                want = ref_merge(main, first)
+                nxt = want.get("include2")
+                if nxt is not None:
+                    want = ref_merge(want, files[nxt])
             else:  # chain: the root include brings in the nested include directive
                 main["include"] = "r.inc"
                 inc = _mk(c[0], c[1], None, None)
@@ -319,13 +342,26 @@ def _equiv(job, ctx):
                 files["n.inc"] = _mk(None, None, c[2], c[3], nested_only=True)
                 want = ref_merge(main, files["r.inc"])
                 want["sub"] = ref_merge(want.get("sub", {}), files["n.inc"])
+            # every included file also carries untyped container values (stored by the configuration as parsed)
+            for name, t in files.items():
+                if name == "n.inc":
+                    t["ul"] = [1, [2]]
+                else:
+                    t["ul"] = [1, [2]]
+                    t["ud"] = {"k": {"n": 1}}
+            if variant in ("root", "both", "chain") or variant.startswith("two-in-scope"):
+                want["ul"] = [1, [2]]; want["ud"] = {"k": {"n": 1}}
+            if variant in ("nested", "both", "chain"):
+                want.setdefault("sub", {})["ul"] = [1, [2]]
             for name, t in files.items():
                 _write(fmt, os.path.join(incdir, name), t)
             mainpath = os.path.join(tmp, "main.cfg")
             _write(fmt, mainpath, main)
-            schema = _schema(variant, startdir)
+            if shared.get("schema") is None:
+                shared["schema"] = _schema(variant, startdir)
+            schema = shared["schema"]
             cfg = schema()
-            ref = schema()
+            ref = _schema(variant, startdir)()      # the reference side never touches the include machinery
             fp = "C18|equiv|%s|%s|%s|" % (variant, fmt, job["startdir"])
             case = _case(job, [mi, ci])
             ctx.transitions += 1
@@ -338,7 +374,20 @@ def _equiv(job, ctx):
                 continue
             ref.load_tree(copy.deepcopy(want))
             ctx.case((variant, fmt, mi, ci), "equiv:ok", bool(set(_flat(main)) & set(_flat_files(files))))
-            a, b = cc.asdict(cfg), cc.asdict(ref)
+            a, b = copy.deepcopy(cc.asdict(cfg)), copy.deepcopy(cc.asdict(ref))
+            try:       # what an application does with a loaded configuration must not leak into the next load
+                cfg.y = "mutated-after-load"
+                cfg.sub.w = "mutated-too"
+                if cfg.ul is not None:
+                    cfg.ul.append("appended-after-load")
+                    cfg.ul[1].append("nested-append")
+                if cfg.ud is not None:
+                    cfg.ud["k"]["n"] = "edited-after-load"
+                    cfg.ud["new"] = 1
+                if cfg.sub.ul is not None:
+                    cfg.sub.ul.append("appended-after-load")
+            except Exception:  # noqa
+                pass
             if V.canon(_norm_paths(a, incdir)) != V.canon(_norm_paths(b, incdir)):
                 ctx.violation(fp + "differs", "main %s + included %s loaded as %s; the merged tree %s loads as %s" % (main, files, a, want, b), case,
                               size=len(str(main)) + len(str(files)))
